@@ -2,7 +2,7 @@
    case the implementation ran (directory layout as filepath.Walk listed it, loader configuration, what the
    parent loader binds, operation sequence). *)
 From Coq Require Import ZArith NArith Bool List.
-From PcoreV Require Import Model.Base Model.FileLoader Model.FileLoaderText Proofs.FileLoaderIff.
+From PcoreV Require Import Model.Base Model.FileLoader Model.FileLoaderText Proofs.FileLoaderIff Proofs.FileLoaderMember.
 Import ListNotations.
 Local Open Scope nat_scope.
 
@@ -63,8 +63,14 @@ Definition c15_model (c : ccase) : list (out * list (nat * str)) :=
    well-formed, correctly named definition file at the derived path was answered "not found" - in every topology *)
 Definition c15_iff_ok (c : ccase) : bool := iff_ok_from (cc_world c) (cc_ops c) (cc_outs c).
 
+(* C15_typeset_member_never_missed_dec evaluated on the OBSERVED outcomes (Proofs/FileLoaderMember.v: mem_ok_from):
+   as long as no operation of the generation reported an error, no lookup of a TypeSet member name that a consulted
+   loader's TypeSet file declares and nothing else stands for (member_claim_b) was answered "not found" *)
+Definition c15_mem_ok (c : ccase) : bool :=
+  negb (members_wf_b (cc_world c)) || mem_ok_from (cc_world c) (cc_ops c) (cc_outs c).
+
 Definition c15_check (c : ccase) : bool :=
   world_ok (cc_world c) && forallb (text_ok (cc_world c)) (cc_texts c) &&
-  list_eqb outr_eqb (c15_model c) (cc_outs c) && c15_iff_ok c.
+  list_eqb outr_eqb (c15_model c) (cc_outs c) && c15_iff_ok c && c15_mem_ok c.
 
 Definition c15_mismatches (cs : list ccase) : list N := failing c15_check cs.
